@@ -12,8 +12,8 @@ KNOWN = os.environ.get("VERIF_KNOWN") or os.path.join(VERIF, "known_findings.jso
 REAL_STUB = {
     "real": ["xcp binary built from /repo working tree (src/, libxcp, libfs and all dependencies, glibc)",
              "Linux VFS + tmpfs for every file operation that is not emulated"],
-    "simulated": ["thread scheduling (token passing at system-call boundaries, plus seeded parking in user space after atomic instructions by single-stepping)", "futex wait/wake queues", "sched_yield / sleeps",
-                  "getrandom", "directory listing order", "per-call I/O length limit", "injected errno results", "process kill",
+    "simulated": ["thread scheduling (token passing at system-call boundaries, plus seeded parking in user space after atomic instructions by single-stepping)", "futex wait/wake queues (timed waits on the simulated clock)", "sched_yield / sleeps",
+                  "clock_gettime / gettimeofday / time (vDSO switched off at exec)", "getpid (fixed value)", "getrandom", "directory listing order", "per-call I/O length limit", "injected errno results", "process kill",
                   "FIEMAP answers (from the file's real SEEK_DATA/SEEK_HOLE map)", "FICLONE success"],
     "absent": ["other processes", "block devices", "reflink-capable file systems", "power loss"],
 }
@@ -91,6 +91,7 @@ def summarize(res, findings, plan=None, extra=None):
         "kernel_fired": st.get("kernel_fired", {}),
         "faults": st.get("faults", []),
         "peak_fds": st.get("peak_fds", 0),
+        "sim_ns": st.get("sim_elapsed_ns", 0),
         "wall_ms": res.get("wall_ms", 0),
     }
     if res["outcome"].get("kind") != "exit" or res["outcome"].get("code"):
@@ -190,6 +191,7 @@ def execute(check, tier, seed, budget_s=None, out=sys.stdout):
     fault_table = {}
     probes = {}
     steps_total = 0
+    sim_ns_total = 0
     switches_total = 0
     samples = []
     cross = {}
@@ -218,6 +220,7 @@ def execute(check, tier, seed, budget_s=None, out=sys.stdout):
             for run in rec["runs"]:
                 n_runs += 1
                 steps_total += run.get("steps", 0)
+                sim_ns_total += run.get("sim_ns", 0)
                 switches_total += run.get("switches", 0)
                 sg = (run.get("sig"), run.get("case_id", rec.get("case_id")))
                 sigs.add(sg)
@@ -366,7 +369,7 @@ def execute(check, tier, seed, budget_s=None, out=sys.stdout):
         "known_findings_seen": sorted("%s/%s" % k for k in knownhits),
         "truncated_by_budget": truncated,
         "components": REAL_STUB,
-        "simulated_time": "logical only (xcp has no timers); %d scheduling decisions" % steps_total,
+        "simulated_time": "%.3f s on the simulated clock (10 us per scheduling decision, 1 us per clock query, jumps to timer deadlines; xcp itself has no timers) over %d scheduling decisions" % (sim_ns_total / 1e9, steps_total),
     }
     ev = {"property_id": check.prop, "tier": tier, "seed": seed, "level": check.level, "coverage": cov,
           "assumptions": check.assumptions, "wall_s": round(wall, 2), "violations": len(reported)}
